@@ -755,6 +755,178 @@ impl ClusterState {
     }
 }
 
+/// Verification harness: builds real `ClusterState`s from an in-memory description
+/// (through `ClusterState::new` / `new_updated`, with every node disabled so that no
+/// connection is ever opened) and exposes the tablet bookkeeping of a state.
+#[cfg(scylla_verif)]
+#[allow(missing_docs, unreachable_pub, unnameable_types)]
+pub mod verif_hooks {
+    use super::*;
+    use crate::cluster::node::NodeAddr;
+
+    pub struct VPeer {
+        pub host_id: Uuid,
+        pub addr: SocketAddr,
+        pub dc: Option<String>,
+        pub rack: Option<String>,
+        pub tokens: Vec<i64>,
+    }
+
+    pub struct VKeyspace {
+        pub name: String,
+        pub strategy: Strategy,
+        pub tablet_based: bool,
+        pub tables: Vec<String>,
+    }
+
+    struct RejectAll;
+    impl HostFilter for RejectAll {
+        fn accept(&self, _peer: &Peer) -> bool {
+            false
+        }
+    }
+
+    fn metadata(peers: Vec<VPeer>, keyspaces: Vec<VKeyspace>) -> Metadata {
+        let peers = peers
+            .into_iter()
+            .map(|p| Peer {
+                host_id: p.host_id,
+                address: NodeAddr::Translatable(p.addr),
+                tokens: p.tokens.into_iter().map(Token::new).collect(),
+                datacenter: p.dc,
+                rack: p.rack,
+            })
+            .collect();
+        let keyspaces = keyspaces
+            .into_iter()
+            .map(|k| {
+                let tables = k
+                    .tables
+                    .into_iter()
+                    .map(|t| {
+                        (
+                            t,
+                            Table {
+                                columns: HashMap::new(),
+                                partition_key: Vec::new(),
+                                clustering_key: Vec::new(),
+                                partitioner: None,
+                                pk_column_specs: Vec::new(),
+                            },
+                        )
+                    })
+                    .collect();
+                (
+                    k.name,
+                    Ok(Keyspace {
+                        strategy: k.strategy,
+                        durable_writes: true,
+                        tablet_based: k.tablet_based,
+                        tables,
+                        views: HashMap::new(),
+                        user_defined_types: HashMap::new(),
+                    }),
+                )
+            })
+            .collect();
+        Metadata {
+            peers,
+            keyspaces,
+            cluster_name: None,
+            client_routes: None,
+        }
+    }
+
+    fn node_config() -> NodeConfig {
+        let (connectivity_events_sender, _) = mpsc::unbounded_channel();
+        NodeConfig {
+            pool_config: PoolConfig {
+                connection_config: crate::network::verif_connection_config(),
+                pool_size: Default::default(),
+                can_use_shard_aware_port: true,
+                reconnect_policy: Arc::new(
+                    crate::policies::reconnect::ExponentialReconnectPolicy::new(),
+                ),
+            },
+            used_keyspace: None,
+            connectivity_events_sender,
+            metrics: Metrics::new(),
+        }
+    }
+
+    /// `ClusterState::new` over the given description.
+    pub async fn build(peers: Vec<VPeer>, keyspaces: Vec<VKeyspace>) -> ClusterState {
+        ClusterState::new(metadata(peers, keyspaces), &node_config(), Some(&RejectAll)).await
+    }
+
+    /// `ClusterState::new_updated` (topology / schema refresh) over the given description.
+    pub async fn rebuild(
+        prev: &ClusterState,
+        peers: Vec<VPeer>,
+        keyspaces: Vec<VKeyspace>,
+    ) -> ClusterState {
+        prev.new_updated(metadata(peers, keyspaces), &node_config(), Some(&RejectAll))
+            .await
+    }
+
+    /// Feeds one `tablets-routing-v1` custom payload through the real parser and
+    /// `ClusterState::update_tablets`.
+    pub fn add_tablet_payload(
+        state: &mut ClusterState,
+        ks: &str,
+        table: &str,
+        payload: &[u8],
+    ) -> Result<(), String> {
+        let mut map = HashMap::new();
+        map.insert(
+            "tablets-routing-v1".to_string(),
+            bytes::Bytes::copy_from_slice(payload),
+        );
+        match RawTablet::from_custom_payload(&map) {
+            Some(Ok(raw)) => {
+                state.update_tablets(vec![(
+                    TableSpec::owned(ks.to_string(), table.to_string()),
+                    raw,
+                )]);
+                Ok(())
+            }
+            Some(Err(e)) => Err(e.to_string()),
+            None => Err("no tablets-routing-v1 key".to_string()),
+        }
+    }
+
+    /// The tablet ranges known for a table, in storage order (None = table unknown).
+    pub fn tablet_ranges(state: &ClusterState, ks: &str, table: &str) -> Option<Vec<(i64, i64)>> {
+        let spec = TableSpec::borrowed(ks, table);
+        state
+            .locator
+            .tablets
+            .tablets_for_table(&spec)
+            .map(|t| t.verif_ranges())
+    }
+
+    /// Replicas `(host id, the Node object's datacenter, shard)` of the tablet owning `token`.
+    pub fn tablet_lookup(
+        state: &ClusterState,
+        ks: &str,
+        table: &str,
+        token: i64,
+        dc: Option<&str>,
+    ) -> Option<Vec<(Uuid, Option<String>, Shard)>> {
+        let spec = TableSpec::borrowed(ks, table);
+        let tt = state.locator.tablets.tablets_for_table(&spec)?;
+        let reps = match dc {
+            Some(dc) => tt.dc_replicas_for_token(Token::new(token), dc)?,
+            None => tt.replicas_for_token(Token::new(token))?,
+        };
+        Some(
+            reps.iter()
+                .map(|(n, s)| (n.host_id, n.datacenter.clone(), *s))
+                .collect(),
+        )
+    }
+}
+
 #[cfg(test)]
 mod tests {
     use super::*;
